@@ -449,7 +449,9 @@ func runC08(t *testing.T, spec *hutil.Spec, out *hutil.Out) {
 		if out.OverBudget() {
 			return
 		}
-		out.Progress(c.Name())
+		if !out.Begin(c.Name()) {
+			continue
+		}
 		r := &c08run{cell: c, k: kindByName(c.Kind)}
 		rn.e.OnExec = func(res *vs.Result) {
 			if r.drv != nil {
@@ -520,7 +522,9 @@ func runC10ids(t *testing.T, spec *hutil.Spec, out *hutil.Out) {
 		if !spec.Thorough() && c.Bound > 1 && strings.HasSuffix(c.Kind, "/scenario") {
 			c.Bound = 1
 		}
-		out.Progress(c.Name())
+		if !out.Begin(c.Name()) {
+			continue
+		}
 		r := &c08run{cell: c, k: kindByName(c.Kind)}
 		var idv *vs.Result
 		rn.e.OnExec = func(res *vs.Result) {
